@@ -5,7 +5,7 @@ import json
 import torch
 from tensordict import TensorDict, lazy_stack
 
-from . import progs
+from . import c19_deep, progs
 from .core import Sym, some, sx
 
 
@@ -100,7 +100,13 @@ def check_programs(R):
             leaf = rng.choice(["a"])
             prog = [rng.choice([("update_inplace", (leaf, rng.randrange(2, 4))), ("set_inplace", (leaf, rng.randrange(1, 4)))])
                     for _ in range(rng.randrange(1, 4))]
-        out_rank = len(progs.run_program(sl, prog).batch_size)
+        r0 = call(lambda: progs.run_program(sl, prog))
+        if r0[0] != "ok":
+            # dropping the in-place ops (locked stream) can leave a later op without the key it reads
+            R.count("program:filtered-program-not-runnable")
+            prog = [("clone", ())]
+            r0 = call(lambda: progs.run_program(sl, prog))
+        out_rank = len(r0[1].batch_size)
         out_dim = rng.randrange(0, out_rank + 1)
         case = {"kind": "program", "shape": list(shape), "container": kind, "in_dim": in_dim, "out_dim": out_dim, "named": named,
                 "locked": locked, "program": [[nm, list(a)] for nm, a in prog]}
@@ -369,7 +375,17 @@ def main(R):
     R.rule = ("identity functions over all batch shapes of rank 1..3 with dims in {1,2,3} x in_dims every position incl. negative x out_dims every "
               "position x regular / lazy (stack dim first / last) x named; random straight-line programs (1..5 ops from the C18 generator restricted "
               "to functorch-batchable ops) x in/out dims x locked / named; multi-argument calls with in_dims None; nested vmap depth 2; functional "
-              "module calls with batched parameters; locked inputs reused across calls with an in-place write in between")
+              "module calls with batched parameters; locked inputs reused across calls with an in-place write in between; "
+              "element level: random (batch shape rank 1..3, 1..2 leaves with feature dims incl. dims of the batch's size, names with None, "
+              "in_dim incl. negative / out of range, out_dim in -(r+3)..r+3) with EVERY element of every leaf compared with the model; "
+              "plumbing: random argument pytrees (tensordict / tensor / object leaves, tuples and lists, depth <= 2) x in_dims (int, None, "
+              "broadcast prefixes, wrong structure / type / range / sizes) x output pytrees x out_dims (same perturbations); memoised views: "
+              "random histories of vmap(in_dim, level 1|2) / set_ / rebinding under lock (make_memmap, _set_str(ignore_lock)) / un-batched pass "
+              "with a writing function / unlock / lock on locked, unlocked and memory-mapped tensordicts; lazy op classes: 14 ops x shapes x "
+              "stack dim x in_dim x out_dim")
+    R.trusted = ["functorch's batching rules appear in the element-level theorems as ONE definition (Model.C19_Content.lift: a function applied "
+                 "to batched values computes the function on every sample); torch's _add_batch_dim / _remove_batch_dim on a leaf are "
+                 "transcribed (hide dim in_dim; re-insert at out_dim wrapped against the leaf rank + 1) and compared element by element"]
     R.assumptions = ["functorch's batching rules are trusted; a refusal by functorch to batch an op (exception) is counted, not judged",
                      "out_dims are taken in 0..result rank (negative out_dims are outside the property's quantifier)",
                      "module outputs are compared with allclose (float matmul), everything else exactly on integers"]
@@ -377,6 +393,7 @@ def main(R):
     ok = R.step_driver()
     if ok:
         check_shapes(R)
+        c19_deep.run(R)
     check_programs(R)
     check_multi_arg_and_nested(R)
     check_locked_reuse(R)
@@ -388,6 +405,8 @@ def replay(body):
     c = body["case"]
     print(json.dumps(c))
     print(json.dumps(body.get("detail"), default=str))
+    if c["kind"] in ("elements", "plumbing", "memo", "lazy-op"):
+        return c19_deep.replay(c)
     if c["kind"] == "program":
         prog = [(n, tuple(tuple(x) if isinstance(x, list) else x for x in a)) for n, a in c["program"]]
         shape = tuple(c["shape"])
